@@ -91,6 +91,15 @@ def _name(node):
     return node.id if isinstance(node, ast.Name) else None
 
 
+def _method(tree, name, cls):
+    """the method with the calls of private / static helper methods of its class substituted (two levels):
+    "extract method" does not hide a data flow (astutil_G5.inline_helpers)"""
+    fn = find_func(tree, name, cls)
+    cnode = [n for n in ast.walk(tree) if isinstance(n, ast.ClassDef) and n.name == cls][0]
+    new, used = G5.inline_helpers(fn, G5.class_resolver([cnode], fn, only=G5.is_private_helper), depth=2)
+    return new if used else fn
+
+
 # --------------------------------------------------------------------------- assign_tp_lt by data flow
 def _method_call(node, attr):
     return isinstance(node, ast.Call) and isinstance(node.func, ast.Attribute) and node.func.attr == attr
@@ -148,7 +157,7 @@ def rmw_flags():
     statement that concatenates an expression holding a load micro-op list with one holding a store micro-op
     list; the load list is `by reference` iff no copy lies on any way from the table to that statement."""
     tree = parse("osaca/semantics/arch_semantics.py")
-    fn = find_func(tree, "assign_tp_lt", "ArchSemantics")
+    fn = _method(tree, "assign_tp_lt", "ArchSemantics")
     O = _origins(fn)
     n_lp = sum(1 for n in ast.walk(fn) if _method_call(n, "get_load_throughput"))
     n_sp = sum(1 for n in ast.walk(fn) if _method_call(n, "get_store_throughput"))
@@ -238,7 +247,7 @@ def _peel_copies(node, flow):
 
 def load_default_copied():
     tree = parse("osaca/semantics/hw_model.py")
-    fn = find_func(tree, "get_load_throughput", "MachineModel")
+    fn = _method(tree, "get_load_throughput", "MachineModel")
     flow = G5.Flow(fn)
     hits = set()
     for r in G5.walk_scope(fn):
@@ -262,7 +271,7 @@ def load_default_copied():
 
 def found_by_ref():
     tree = parse("osaca/semantics/arch_semantics.py")
-    fn = find_func(tree, "_handle_instruction_found", "ArchSemantics")
+    fn = _method(tree, "_handle_instruction_found", "ArchSemantics")
     flow = G5.Flow(fn)
     hits = []
     cands = []
@@ -287,7 +296,7 @@ def hidden_by_ref():
     `.hidden_operands`, `+= [h for h in ...]`, `.extend(...)`) -- by reference iff no copy lies on the way;
     all ways must agree."""
     tree = parse("osaca/semantics/isa_semantics.py")
-    fn = find_func(tree, "_apply_found_ISA_data", "ISASemantics")
+    fn = _method(tree, "_apply_found_ISA_data", "ISASemantics")
 
     def source(node):
         return "HL" if isinstance(node, ast.Attribute) and node.attr == "hidden_operands" else None
